@@ -392,7 +392,7 @@ Proof.
   - eapply dok_trans; [exact P1|apply after_connect_pre].
 Qed.
 
-Lemma run_later_pre cf ps st pr l : delta_ok q_pre l (fst (run_later cf ps st pr l)).
+Lemma run_later_pre cf ps st pr buf l : delta_ok q_pre l (fst (fst (run_later cf ps st pr buf l))).
 Proof.
   unfold run_later. pose proof (chain_dok HCR ARequest handle_client_request ps pr l) as H.
   destruct (chain HCR ARequest handle_client_request ps pr l) as [l1 e]. cbn [fst] in H.
@@ -403,16 +403,32 @@ Proof.
   destruct f; cbn [fst]; eapply dok_trans; eassumption.
 Qed.
 
-Lemma on_client_data_pre cf ps st raw parsed l : delta_ok q_pre l (fst (on_client_data cf ps st raw parsed l)).
+Lemma client_loop_pre cf ps st parses l : delta_ok q_pre l (fst (client_loop cf ps st parses l)).
+Proof.
+  revert st l. induction parses as [|[|pr rem] t IH]; intros st l; cbn [client_loop]; try apply dok_refl.
+  pose proof (run_later_pre cf ps st pr rem l) as H.
+  destruct (run_later cf ps st pr rem l) as [[l1 e] r]. cbn [fst] in H.
+  destruct e as [st1|st1 f]; [|exact H]. destruct r as [rem'|]; [|exact H].
+  destruct (st_pipeline st1); cbn [fst].
+  - eapply dok_trans; [exact H|apply dok_app; reflexivity].
+  - eapply dok_trans; [exact H|apply IH].
+Qed.
+
+Lemma on_client_data_pre cf ps st raw parses l : delta_ok q_pre l (fst (on_client_data cf ps st raw parses l)).
 Proof.
   unfold on_client_data. destruct (negb (st_upstream st)).
   - pose proof (chain_dok HCD ABytes handle_client_data ps raw l) as H.
     destruct (chain HCD ABytes handle_client_data ps raw l) as [l1 e]. cbn [fst] in H.
     destruct (fail_of_end e); cbn [fst]; chain_pre H HCD.
   - destruct (rq_tunnel (st_request st)); [apply dok_app; reflexivity|].
-    destruct (st_pipeline st) as [pr|].
-    + destruct (is_connection_upgrade pr); [apply dok_app; reflexivity|apply run_later_pre].
-    + destruct parsed as [pr|]; [apply run_later_pre|apply dok_refl].
+    destruct (st_pipeline st) as [[pr buf]|]; [|apply client_loop_pre].
+    destruct (is_connection_upgrade pr); [apply dok_app; reflexivity|].
+    pose proof (run_later_pre cf ps st pr (buf ++ raw) l) as H.
+    destruct (run_later cf ps st pr (buf ++ raw) l) as [[l1 e] r]. cbn [fst] in H.
+    destruct e as [st1|st1 f]; [|exact H]. destruct r as [rem'|]; [|exact H].
+    destruct (st_pipeline st1); cbn [fst].
+    + eapply dok_trans; [exact H|apply dok_app; reflexivity].
+    + eapply dok_trans; [exact H|apply client_loop_pre].
 Qed.
 
 Lemma on_upstream_data_pre ps st raw l : delta_ok q_pre l (fst (on_upstream_data ps st raw l)).
@@ -774,9 +790,9 @@ Theorem drop_first_request cf ps connected r1 l2 l3 rx :
 Proof. intros H. unfold after_connect. rewrite H. reflexivity. Qed.
 
 (* ... and on a later request of the connection *)
-Theorem drop_later_request cf ps st pr l l1 rx :
+Theorem drop_later_request cf ps st pr buf l l1 rx :
   chain HCR ARequest handle_client_request ps pr l = (l1, Dropped rx) ->
-  run_later cf ps st pr l = (l1, Continue (mkState (st_request st) true (Some rx)))
+  run_later cf ps st pr buf l = (l1, Continue (mkState (st_request st) true (Some (rx, buf))), None)
   /\ upstream_queue l1 = upstream_queue l.
 Proof.
   intros H. unfold run_later. rewrite H. split; [reflexivity|].
@@ -819,9 +835,9 @@ Proof.
   split; reflexivity.
 Qed.
 
-Theorem reject_later_request cf ps st pr l l1 rx resp :
+Theorem reject_later_request cf ps st pr buf l l1 rx resp :
   chain HCR ARequest handle_client_request ps pr l = (l1, Rejected rx resp) ->
-  run_later cf ps st pr l = (l1, Failed (mkState (st_request st) true (Some rx)) (FReject resp))
+  run_later cf ps st pr buf l = (l1, Failed (mkState (st_request st) true (Some (rx, buf))) (FReject resp), None)
   /\ upstream_queue l1 = upstream_queue l /\ client_queue l1 = client_queue l.
 Proof.
   intros H. unfold run_later. rewrite H. cbn [norm_end]. split; [reflexivity|].
@@ -838,10 +854,11 @@ Definition wf_request (r : request) : Prop := wf_headers (rq_headers r).
 Definition plugin_wf (p : plugin) : Prop :=
   (forall seen r r', wf_request r -> before_upstream_connection p seen r = Pass r' -> wf_request r')
   /\ (forall seen r r', wf_request r -> handle_client_request p seen r = Pass r' -> wf_request r').
+Definition parse_wf (p : parse_result) : Prop := match p with PComplete r _ => wf_request r | PPartial => True end.
 Definition step_wf (s : step) : Prop :=
-  match s with SFirst r _ => wf_request r | SClient _ (Some r) => wf_request r | _ => True end.
+  match s with SFirst r _ => wf_request r | SClient _ parses => Forall parse_wf parses | _ => True end.
 Definition qclean (l : log) : Prop := forall b, In (QueueUpstream QRequest b) l -> clean_pkt b.
-Definition pipe_wf (st : pstate) : Prop := match st_pipeline st with Some pr => wf_request pr | None => True end.
+Definition pipe_wf (st : pstate) : Prop := match st_pipeline st with Some (pr, _) => wf_request pr | None => True end.
 
 Lemma qclean_dok l l' : qclean l -> delta_ok q_noup l l' -> qclean l'.
 Proof.
@@ -926,8 +943,8 @@ Proof.
   - now apply after_connect_clean.
 Qed.
 
-Lemma run_later_clean cf ps st pr l : Forall plugin_wf ps -> wf_request pr -> qclean l ->
-  qclean (fst (run_later cf ps st pr l)) /\ pipe_wf (end_state (snd (run_later cf ps st pr l))).
+Lemma run_later_clean cf ps st pr buf l : Forall plugin_wf ps -> wf_request pr -> qclean l ->
+  qclean (fst (fst (run_later cf ps st pr buf l))) /\ pipe_wf (end_state (snd (fst (run_later cf ps st pr buf l)))).
 Proof.
   intros Hp Hr Hq. unfold run_later.
   pose proof (chain_dok HCR ARequest handle_client_request ps pr l) as H1.
@@ -941,23 +958,42 @@ Proof.
   destruct (is_connection_upgrade r2); [exact H5|exact I].
 Qed.
 
-Lemma on_client_data_clean cf ps st raw parsed l : Forall plugin_wf ps -> pipe_wf st ->
-  match parsed with Some r => wf_request r | None => True end -> qclean l ->
-  qclean (fst (on_client_data cf ps st raw parsed l)) /\ pipe_wf (end_state (snd (on_client_data cf ps st raw parsed l))).
+Lemma client_loop_clean cf ps st parses l : Forall plugin_wf ps -> Forall parse_wf parses -> pipe_wf st -> qclean l ->
+  qclean (fst (client_loop cf ps st parses l)) /\ pipe_wf (end_state (snd (client_loop cf ps st parses l))).
+Proof.
+  intros Hp. revert st l. induction parses as [|[|pr rem] t IH]; intros st l Hw Hs Hq; cbn [client_loop];
+    try (cbn [fst snd end_state]; now split).
+  inversion Hw as [|? ? Hw1 Hw2]; subst. cbn [parse_wf] in Hw1.
+  pose proof (run_later_clean cf ps st pr rem l Hp Hw1 Hq) as [H1 H2].
+  destruct (run_later cf ps st pr rem l) as [[l1 e] r]. cbn [fst snd] in H1, H2.
+  destruct e as [st1|st1 f]; [|cbn [fst snd]; now split]. destruct r as [rem'|]; [|cbn [fst snd]; now split].
+  cbn [end_state] in H2. destruct (st_pipeline st1) eqn:Ep.
+  - cbn [fst snd end_state]. split; [|exact H2].
+    intros b Hb. apply in_app_or in Hb as [Hb|[Hb|[]]]; [now apply H1|discriminate].
+  - now apply IH.
+Qed.
+
+Lemma on_client_data_clean cf ps st raw parses l : Forall plugin_wf ps -> pipe_wf st ->
+  Forall parse_wf parses -> qclean l ->
+  qclean (fst (on_client_data cf ps st raw parses l)) /\ pipe_wf (end_state (snd (on_client_data cf ps st raw parses l))).
 Proof.
   intros Hp Hs Hr Hq. unfold on_client_data. destruct (negb (st_upstream st)).
   - pose proof (chain_dok HCD ABytes handle_client_data ps raw l) as H.
     destruct (chain HCD ABytes handle_client_data ps raw l) as [l1 e]. cbn [fst] in H.
     assert (Q1 : qclean l1) by (eapply qclean_dok; [exact Hq|eapply dok_weaken; [apply call_noup|exact H]]).
     destruct (fail_of_end e); cbn [fst snd end_state]; now split.
-  - assert (QR : qclean (l ++ [QueueUpstream QRaw raw])).
-    { intros b Hb. apply in_app_or in Hb as [Hb|[Hb|[]]]; [now apply Hq|discriminate]. }
-    destruct (rq_tunnel (st_request st)); [cbn [fst snd end_state]; now split|].
-    unfold pipe_wf in Hs. destruct (st_pipeline st) as [pr|] eqn:Ep.
-    + destruct (is_connection_upgrade pr); [cbn [fst snd end_state]; split; [exact QR|]; unfold pipe_wf; now rewrite Ep|].
-      now apply run_later_clean.
-    + destruct parsed as [pr|]; [now apply run_later_clean|]. cbn [fst snd end_state]. split; [exact Hq|].
-      unfold pipe_wf. now rewrite Ep.
+  - assert (QR : forall l0 x, qclean l0 -> qclean (l0 ++ [QueueUpstream QRaw x])).
+    { intros l0 x H0 b Hb. apply in_app_or in Hb as [Hb|[Hb|[]]]; [now apply H0|discriminate]. }
+    destruct (rq_tunnel (st_request st)); [cbn [fst snd end_state]; split; [now apply QR|exact Hs]|].
+    pose proof Hs as Hs'. unfold pipe_wf in Hs'. destruct (st_pipeline st) as [[pr buf]|] eqn:Ep.
+    + destruct (is_connection_upgrade pr); [cbn [fst snd end_state]; split; [now apply QR|exact Hs]|].
+      pose proof (run_later_clean cf ps st pr (buf ++ raw) l Hp Hs' Hq) as [H1 H2].
+      destruct (run_later cf ps st pr (buf ++ raw) l) as [[l1 e] r]. cbn [fst snd] in H1, H2.
+      destruct e as [st1|st1 f]; [|cbn [fst snd]; now split]. destruct r as [rem'|]; [|cbn [fst snd]; now split].
+      cbn [end_state] in H2. destruct (st_pipeline st1) eqn:Ep1.
+      * cbn [fst snd end_state]. split; [now apply QR|exact H2].
+      * now apply client_loop_clean.
+    + now apply client_loop_clean.
 Qed.
 
 Lemma run_steps_clean cf ps st dr steps l :
